@@ -34,3 +34,126 @@ pub fn stream(casefile: &str)
 		println!("{}\t{}", id, res);
 	}
 }
+
+/// Canonical token line shared by both lexers and both models:
+/// "Kind value type start end line col;" per token.
+pub fn lex_delta_line(src: &[u8]) -> String
+{
+	use penne::delta::lexer::tokens::TokenId;
+	use penne::delta::lexer::{BaseToken, ValueTypeKeyword};
+	use penne::delta::parser::parse_node;
+	let tokens = lexer::lex(src, "f");
+	let base = tokens.base_tokens();
+	let codes: Vec<u16> = tokens.errors().map(|e| e.codes()).unwrap_or_default();
+	let mut nerr = 0;
+	let mut out = String::new();
+	let mut n = base.len();
+	let mut nend = 0;
+	while n > 0 && base[n - 1] == BaseToken::EndOfSource
+	{
+		n -= 1;
+		nend += 1;
+	}
+	for i in 0..n
+	{
+		let id: TokenId = parse_node::TokenId(parse_node::U24::new(i)).into();
+		let bt = base[i];
+		let vap = tokens.get_value_type_and_payload(id);
+		let loc = tokens.get_location(id);
+		let vt = vap.value_type();
+		let payload = tokens.get_integer_payload(vap.payload_id());
+		let (kind, value) = if bt == BaseToken::Error
+		{
+			let c = codes.get(nerr).copied().unwrap_or(9999);
+			nerr += 1;
+			("Error".to_string(), c as u128)
+		}
+		else
+		{
+			(format!("{:?}", bt), payload.unwrap_or(0))
+		};
+		let vts = if vt == ValueTypeKeyword::NoKeyword
+		{
+			"-".to_string()
+		}
+		else
+		{
+			format!("{:?}", vt)
+		};
+		out.push_str(&format!(
+			"{} {} {} {} {} {} {};",
+			kind, value, vts, loc.span.start, loc.span.end, loc.line_number, loc.line_offset
+		));
+	}
+	format!("{}|{}", out, nend)
+}
+
+pub fn lex_alpha_line(src: &str) -> String
+{
+	use penne::alpha::lexer::Token;
+	let tokens = penne::alpha::lexer::lex(src, "f");
+	let mut out = String::new();
+	for t in &tokens
+	{
+		let (kind, value, vts, bytes): (String, u128, String, Option<Vec<u8>>) = match &t.result
+		{
+			Err(e) =>
+			{
+				let code = penne::alpha::error::Error::Lexical {
+					error: *e,
+					expectation: String::new(),
+					location: t.location.clone(),
+				}
+				.code();
+				("Error".to_string(), code as u128, "-".to_string(), None)
+			}
+			Ok(Token::Identifier(_)) => ("Identifier".into(), 0, "-".into(), None),
+			Ok(Token::Builtin(_)) => ("Builtin".into(), 0, "-".into(), None),
+			Ok(Token::NakedDecimal(v)) => ("NakedDecimal".into(), *v, "-".into(), None),
+			Ok(Token::BitInteger(v)) => ("BitInteger".into(), *v, "-".into(), None),
+			Ok(Token::SuffixedInteger { value, suffix_type }) =>
+			{
+				("SuffixedInteger".into(), *value, format!("{:?}", suffix_type), None)
+			}
+			Ok(Token::CharLiteral(v)) => ("CharLiteral".into(), *v as u128, "-".into(), None),
+			Ok(Token::Bool(b)) => ("BoolLiteral".into(), *b as u128, "-".into(), None),
+			Ok(Token::StringLiteral { bytes }) =>
+			{
+				("StringLiteral".into(), 0, "-".into(), Some(bytes.clone()))
+			}
+			Ok(Token::Type(vt)) => ("ValueTypeKeyword".into(), 0, format!("{:?}", vt), None),
+			Ok(other) => (format!("{:?}", other), 0, "-".into(), None),
+		};
+		out.push_str(&format!(
+			"{} {} {} {} {} {} {}",
+			kind, value, vts, t.location.span.start, t.location.span.end,
+			t.location.line_number, t.location.line_offset
+		));
+		if let Some(b) = bytes
+		{
+			out.push_str(" #");
+			for x in b
+			{
+				out.push_str(&format!("{:02x}", x));
+			}
+		}
+		out.push(';');
+	}
+	out
+}
+
+/// `lex`: both lexers on the same bytes (the first generation only on valid UTF-8).
+pub fn lex_stream(casefile: &str)
+{
+	for (id, payload) in crate::util::read_cases(casefile)
+	{
+		let p2 = payload.clone();
+		let d = crate::util::guarded(move || lex_delta_line(&p2));
+		let a = match String::from_utf8(payload)
+		{
+			Ok(s) => crate::util::guarded(move || lex_alpha_line(&s)),
+			Err(_) => "not-utf8".to_string(),
+		};
+		println!("{}\t{}\t{}", id, a, d);
+	}
+}
